@@ -22,10 +22,15 @@ def sh(cmd, cwd=None, env=None, timeout=3600):
     return p.returncode, p.stdout.decode(errors="replace")
 
 def tests(wt, tgt):
-    rc, out = sh("cargo test --workspace --no-fail-fast --offline 2>&1", cwd=wt, env={"CARGO_TARGET_DIR": tgt})
-    unit = re.search(r"test result: (\w+)\. (\d+) passed; (\d+) failed", out)
-    lines = re.findall(r"test result: \w+\. \d+ passed; \d+ failed", out)
-    return out, lines
+    """Baseline suite (lib + doc) and the demo, run separately so that a demo
+    that aborts its own test binary cannot hide the other results."""
+    env = {"CARGO_TARGET_DIR": tgt}
+    rc_l, out_l = sh("cargo test --offline --lib 2>&1", cwd=wt, env=env)
+    rc_d, out_d = sh("cargo test --offline --doc 2>&1", cwd=wt, env=env)
+    rc_x, out_x = sh("cargo test --offline --test seeded_demo 2>&1", cwd=wt, env=env)
+    lines = re.findall(r"test result: \w+\. \d+ passed; \d+ failed", out_l + out_d + out_x)
+    base_ok = ("98 passed; 0 failed" in out_l) and rc_l == 0 and rc_d == 0 and ("3 passed; 0 failed" in out_d)
+    return {"baseline_ok": base_ok, "demo_exit": rc_x, "lines": lines, "demo_out": out_x}
 
 def main():
     if len(sys.argv) < 5 or sys.argv[1] != "eval":
@@ -57,22 +62,21 @@ def main():
     meta = {"name": name, "property": prop, "repo_head": subprocess.check_output(["git", "-C", "/repo", "rev-parse", "--short", "HEAD"]).decode().strip(),
             "ran": []}
     # 1. original
-    out, lines = tests(wt, tgt)
-    meta["original_tree"] = {"test_results": lines}
-    orig_ok = all(" 0 failed" in l for l in lines) and any("98 passed" in l for l in lines)
-    meta["ran"].append("cargo test --workspace --no-fail-fast --offline   (original tree + tests/seeded_demo.rs)")
+    t1 = tests(wt, tgt)
+    meta["original_tree"] = {"test_results": t1["lines"], "baseline_98_plus_3_pass": t1["baseline_ok"], "demo_exit_code": t1["demo_exit"]}
+    orig_ok = t1["baseline_ok"] and t1["demo_exit"] == 0
+    meta["ran"].append("cargo test --offline --lib / --doc / --test seeded_demo   (original tree + tests/seeded_demo.rs: all must pass)")
     # 2. patched
     rc, o = sh(["git", "apply", os.path.join(outdir, "patch.diff")], cwd=wt)
     if rc != 0:
         print("patch does not apply:", o); sys.exit(2)
-    out, lines2 = tests(wt, tgt)
-    meta["patched_tree"] = {"test_results": lines2}
-    base98 = any("98 passed; 0 failed" in l for l in lines2)
-    demo_fails = any(re.search(r"[1-9]\d* failed", l) for l in lines2)
+    t2 = tests(wt, tgt)
+    meta["patched_tree"] = {"test_results": t2["lines"], "baseline_98_plus_3_pass": t2["baseline_ok"], "demo_exit_code": t2["demo_exit"]}
+    out = t2["demo_out"]
     m = re.search(r"---- (\S+) stdout ----\n(.*?)\n\n", out, re.S)
-    meta["patched_tree"]["demo_failure_excerpt"] = (m.group(0)[:600] if m else "")
-    meta["confirmed"] = bool(orig_ok and base98 and demo_fails)
-    meta["ran"].append("git apply patch.diff; cargo test --workspace --no-fail-fast --offline   (98 baseline tests must pass, demo must fail)")
+    meta["patched_tree"]["demo_failure_excerpt"] = (m.group(0)[:600] if m else out[-400:])
+    meta["confirmed"] = bool(orig_ok and t2["baseline_ok"] and t2["demo_exit"] != 0)
+    meta["ran"].append("git apply patch.diff; cargo test --offline --lib / --doc / --test seeded_demo   (98 + 3 baseline tests must pass, the demo must fail)")
     # remove the demo before running the checks (they only need src/)
     os.remove(os.path.join(wt, "tests", "seeded_demo.rs"))
     # 3. checks
